@@ -742,8 +742,12 @@ def gen_reverse_cases(rng, it):
     # continuous tables only (interior knot multiplicity <= k): the inverse lookup of a value
     # inside a jump has no solution (brentq's contract presupposes a continuous function)
     t = [v for i, v in enumerate(t) if v in (t[0], t[-1]) or t[:i].count(v) < k]
+    if rng.random() < 0.5:
+        # move the table so that 0.0 lies strictly inside its knot range (explicit bounds of exactly 0.0)
+        shift = t[0] + (t[-1] - t[0]) * rng.choice([0.25, 0.5, 0.5, 0.75])
+        t = [v - shift for v in t]
     m = len(t) - k - 1
-    shape = rng.choice(["inc", "inc", "dec", "dec", "any"])
+    shape = rng.choice(["inc", "dec", "any", "any", "any"])
     w = gen_weights(rng, m, dyadic, shape=shape)
     if shape in ("inc", "dec") and len(set(w)) < len(w):
         w = [v + (i if shape == "inc" else -i) * 0.5 for i, v in enumerate(w)]
@@ -778,14 +782,19 @@ def gen_reverse_cases(rng, it):
                 v = ref(rng.choice(sorted(set(t))[:-1]))
             ys.append(float(v))
         detect = rng.random() < 0.8
-        domkind = rng.choice(["default", "default", "default", "lower", "both"])
+        domkind = rng.choice(["default", "default", "lower", "upper", "both", "both"])
         if it == 0:
             detect, domkind = True, "default"
         ld = ud = None
+        zero_inside = t[0] < 0.0 < t[-1]
         if domkind in ("lower", "both"):
-            ld = float(t[0] + (t[-1] - t[0]) * rng.uniform(0.0, 0.4))
-        if domkind == "both":
-            ud = float(min(t[0] + (t[-1] - t[0]) * rng.uniform(0.6, 1.0), du))
+            ld = float(t[0] + (t[-1] - t[0]) * rng.uniform(0.0, 0.45))
+            if zero_inside and rng.random() < 0.5:
+                ld = 0.0
+        if domkind in ("upper", "both"):
+            ud = float(min(t[0] + (t[-1] - t[0]) * rng.uniform(0.55, 1.0), du))
+            if zero_inside and (ld is None or ld < 0.0) and rng.random() < 0.5:
+                ud = 0.0
         form = rng.choice(["scalar", "list", "array", "timeseries"]) if ny > 1 or rng.random() < 0.5 else "scalar"
         if form == "scalar":
             ys = ys[:1]
@@ -883,6 +892,8 @@ def run_reverse_cases(c, case_list):
         near_end = any(abs(v - rlo) <= margin or abs(v - rhi) <= margin for v in fin)
         c.count(("rev", case["shape"], case["form"], case["detect"], case["domain"][0] is None,
                  case["domain"][1] is None, cls, len(ys), len(fin), bool(strictly_out)))
+        for side, b in zip(("lower", "upper"), case["domain"]):
+            c.hit("reverse/%s-%s" % (side, "none" if b is None else "zero" if b == 0.0 else "negative" if b < 0 else "positive"))
         c.hit("reverse/" + cls)
         c.hit("reverse/table-" + case["shape"])
         c.sample(case, limit=8)
@@ -909,6 +920,12 @@ def run_reverse_cases(c, case_list):
             c.fail("reverse_call rejected values inside the table's range", case, {"range": [rlo, rhi], "msg": r[2]})
         if cls == "bracket" and well_in and case["domain"] == [None, None] and fin:
             c.fail("reverse_call found no root for a value inside the range on the table's own domain", case, r[2])
+        if cls == "bracket" and fin:
+            # the documented rejection: some target has no sign change over the REQUESTED domain
+            prods = [(ref(lo_b) - v) * (ref(hi_b) - v) for v in fin]
+            if all(p < -(tol * tol) and abs(ref(lo_b) - v) > tol and abs(ref(hi_b) - v) > tol for p, v in zip(prods, fin)):
+                c.fail("reverse_call raised although the requested domain brackets a root for every target", case,
+                       {"domain": [lo_b, hi_b], "f(lo)-y, f(hi)-y": [[ref(lo_b) - v, ref(hi_b) - v] for v in fin]})
         # ---- correspondence with the model
         if outs is None:
             continue
@@ -1346,9 +1363,9 @@ def run(c):
         "least-squares quality and constraint satisfaction between test points are numerical: checked per "
         "instance against an independent QP / lstsq reference, not proved",
     ]
-    from .translate_c20 import gen_bspline
+    from .translate_c20 import gen_bspline, gen_reverse_domain
 
-    c.prove(extra=gen_bspline(c))  # + BSpline.basis / BSpline1D.__call__ translated from the source on every run
+    c.prove(extra=gen_bspline(c) + gen_reverse_domain(c))  # + BSpline.basis / BSpline1D.__call__ translated from the source on every run
     nexh = stream_exhaustive(c, c.big)
     stream_eval1d(c, c.n(40, 1200))
     stream_eval2d(c, c.n(16, 400))
